@@ -459,7 +459,7 @@ pub fn generate(tier: Tier, rng: &mut Rng, emit: &mut dyn FnMut(String)) {
         emit(format!("scale.adapter {} - {}", ROOTS[ji % 3], job));
     }
     // seeded random stacks (depth 1..=2, sometimes 3) x random jobs
-    let n = if quick { 1200 } else { 30_000 };
+    let n = if quick { 1200 } else { 10_000 };
     for _ in 0..n {
         let depth = match rng.below(8) {
             0 => 3,
